@@ -1,12 +1,16 @@
-// UNIT LNR — LineReader::find_line: the Line handed out for an offset is the file's line around that offset, whatever the block
-// size (C12, C02).  The whole 750-line function against a contract on the file's bytes; the block reader (unit RBK), LinePart /
-// Line (unit BLK) and the reader's own stores are assumed by their contracts.  PARTIAL correctness for the multi-block loops'
-// termination is included (decreases), the stores' representation invariant is assumed (stand-ins).
+// UNIT LNR — LineReader::find_line and the reader's line stores: the Line handed out for an offset is the file's line around that
+// offset, whatever the block size (C12, C02).  Under contract: find_line (whole 750-line function, six loops, termination included),
+// insert_line (its two debug assertions are proved at every call site), get_linep, lines_contains, check_store.  The store
+// invariant (every stored line is a true line of the file keyed by its first byte, its last byte recorded in foend_to_fobeg, and
+// vice versa) is required on entry and re-established on exit.  Assumed by contract: the block reader (unit RBK), LinePart / Line
+// (unit BLK), the LRU cache look-up check_store_LRU, `BTreeMap::range(k..).next()` (stand-in: least key >= k), vstd's BTreeMap specs.
 #![feature(allocator_api)]
 #![allow(unused_imports, non_camel_case_types, dead_code, unused_variables, unused_parens, unused_mut, unused_assignments, non_snake_case, unused_labels, non_upper_case_globals)]
 use vstd::prelude::*;
 use vstd::arithmetic::div_mod::*;
 use std::sync::Arc;
+use std::collections::BTreeMap;
+use vstd::std_specs::btree::*;
 verus! {
 
 global size_of usize == 8;
@@ -130,7 +134,7 @@ pub open spec fn tail_whole(l: Seq<LinePart>, bs: int, n: int) -> bool {
 }
 /// constant facts about the reader during one call
 pub open spec fn ctx(s: &LineReader, s0: &LineReader, f: Seq<u8>, bs: int, fsz: int) -> bool {
-    s.same(s0) && s.lines == s0.lines && s.wf() && f == s.f() && bs == s.bs() && fsz == f.len() && bs >= 1 && fsz + bs < u64::MAX && s.charsz_ == 1
+    s.same(s0) && s.lines == s0.lines && s.foend_to_fobeg == s0.foend_to_fobeg && s.wf() && f == s.f() && bs == s.bs() && fsz == f.len() && bs >= 1 && fsz + bs < u64::MAX && s.charsz_ == 1
 }
 /// min(bo * bs, fsz): how far the first `bo` blocks reach
 pub open spec fn upto(bo: int, bs: int, fsz: int) -> int { if bo * bs < fsz { bo * bs } else { fsz } }
@@ -185,6 +189,14 @@ pub proof fn lemma_mid(mid: LinePart, tail: Seq<LinePart>, f: Seq<u8>, bs: int, 
         assert(tail[0].fileoffset as int == (bo_m + 1 + 0) * bs);
         lemma_prepend(mid, tail, f, bs);
     }
+}
+/// a true sequence of parts from the start point to the end point of the line around `fo` is the good line
+pub proof fn lemma_good(f: Seq<u8>, bs: int, l: Line, fo: int, e: int)
+    requires parts_true(f, bs, l.lineparts@), s_end(l.lineparts@) == e, is_startpoint(f, fo, s_beg(l.lineparts@)), is_endpoint(f, fo, e)
+    ensures good_line(f, bs, l, fo)
+{
+    let b = s_beg(l.lineparts@);
+    assert forall|i: int| b <= i < e implies f[i] != 10u8 by { if i < fo { } else { } }
 }
 /// a block at or before the last one starts inside the file
 pub proof fn lemma_in_file(f: Seq<u8>, bs: int, bo: int)
@@ -282,13 +294,18 @@ impl LinesLRUCache {
     #[verifier::external_body]
     pub fn put(&mut self, k: FileOffset, v: ResultS3LineFind) { unimplemented!() }
 }
-/// the reader's own store of lines, by what it holds (ghost): every stored line is a true line of the file -- ASSUMED here
-/// (it is find_line's own postcondition that establishes it, line by line)
-#[verifier::external_body]
-pub struct FoToLine { _p: u8 }
+/// the reader's own stores (real types, vstd's BTreeMap specs): `lines` maps a line's first byte to the line, `foend_to_fobeg` its last byte
+/// to its first byte
+//@cut type kind=type path=src/readers/linereader.rs name=FoToLine
+//@end
+//@cut type kind=type path=src/readers/linereader.rs name=FoToFo
+//@end
 pub struct LineReader {
     pub blockreader: BlockReader,
     pub lines: FoToLine,
+    pub foend_to_fobeg: FoToFo,
+    pub lines_stored_highest: usize,
+    pub lines_processed: Count,
     pub charsz_: CharSz,
     pub find_line_lru_cache_enabled: bool,
     pub find_line_lru_cache: LinesLRUCache,
@@ -296,22 +313,45 @@ pub struct LineReader {
     pub lines_hits: Count,
     pub lines_miss: Count,
 }
-impl FoToLine {
-    /// is a line stored that begins at `k`
-    pub uninterp spec fn has(&self, k: FileOffset) -> bool;
-    pub uninterp spec fn at(&self, k: FileOffset) -> LineP;
-    #[verifier::external_body]
-    pub fn contains_key(&self, k: &FileOffset) -> (r: bool) ensures r == self.has(*k) { unimplemented!() }
-    #[verifier::external_body]
-    pub fn get_clone(&self, k: &FileOffset) -> (r: LineP) requires self.has(*k) ensures r == self.at(*k) { unimplemented!() }
+/// a stored line: a true line of the file, keyed by its first byte
+pub open spec fn stored_ok(f: Seq<u8>, bs: int, l: Line, k: FileOffset) -> bool {
+    line_true(f, bs, l) && is_line(f, l_beg(l), l_end(l)) && l_beg(l) == k
+}
+/// no stored line covers byte `fo`
+pub open spec fn miss(m: Map<FileOffset, LineP>, fo: int) -> bool {
+    forall|k: FileOffset| #[trigger] m.contains_key(k) ==> !(l_beg(*m[k]) <= fo <= l_end(*m[k]))
+}
+/// stand-in (R9) for `map.range(k..).next()`: the entry with the least key >= k
+#[verifier::external_body]
+pub fn verif_first_at_or_after<'a>(m: &'a FoToFo, k: &FileOffset) -> (r: Option<(&'a FileOffset, &'a FileOffset)>)
+    ensures
+        r is None ==> forall|k2: FileOffset| #[trigger] m@.contains_key(k2) ==> k2 < *k,
+        r is Some ==> m@.contains_key(*r.unwrap().0) && m@[*r.unwrap().0] == *r.unwrap().1 && *r.unwrap().0 >= *k
+            && forall|k2: FileOffset| #[trigger] m@.contains_key(k2) && k2 >= *k ==> *r.unwrap().0 <= k2,
+{ unimplemented!() }
+#[verifier::external_body]
+pub fn verif_map_get_clone(m: &FoToLine, k: &FileOffset) -> (r: LineP) requires m@.contains_key(*k) ensures r == m@[*k] { unimplemented!() }
+pub fn verif_max_usize(a: usize, b: usize) -> (r: usize) ensures r == (if a >= b { a } else { b }) { if a >= b { a } else { b } }
+/// two lines of the same file that share a byte are the same line
+pub proof fn lemma_same_line(f: Seq<u8>, b1: int, e1: int, b2: int, e2: int, x: int)
+    requires is_line(f, b1, e1), is_line(f, b2, e2), b1 <= x <= e1, b2 <= x <= e2
+    ensures b1 == b2, e1 == e2
+{
+    if e1 < e2 { assert(f[e1] == 10u8); assert(b2 <= e1 < e2); }
+    if e2 < e1 { assert(f[e2] == 10u8); assert(b1 <= e2 < e1); }
+    if b1 < b2 { assert(f[b2 - 1] == 10u8); assert(b1 <= b2 - 1 < e1); }
+    if b2 < b1 { assert(f[b1 - 1] == 10u8); assert(b2 <= b1 - 1 < e2); }
 }
 impl LineReader {
     pub open spec fn f(&self) -> Seq<u8> { self.blockreader.file() }
     pub open spec fn bs(&self) -> int { self.blockreader.bs() }
     pub open spec fn wf(&self) -> bool {
         &&& self.charsz_ == 1 && self.bs() >= 1 && self.f().len() + self.bs() < u64::MAX
-        // store invariant (assumed): every stored line is a true line of the file, keyed by its first byte
-        &&& forall|k: FileOffset| #[trigger] self.lines.has(k) ==> line_true(self.f(), self.bs(), *self.lines.at(k)) && is_line(self.f(), l_beg(*self.lines.at(k)), l_end(*self.lines.at(k))) && l_beg(*self.lines.at(k)) == k
+        // store invariant: every stored line is a true line of the file, keyed by its first byte, and its last byte is recorded
+        &&& forall|k: FileOffset| #[trigger] self.lines@.contains_key(k) ==> stored_ok(self.f(), self.bs(), *self.lines@[k], k)
+                && self.foend_to_fobeg@.contains_key(l_end(*self.lines@[k]) as u64) && self.foend_to_fobeg@[l_end(*self.lines@[k]) as u64] == k
+        &&& forall|e: FileOffset| #[trigger] self.foend_to_fobeg@.contains_key(e) ==> self.lines@.contains_key(self.foend_to_fobeg@[e])
+                && l_end(*self.lines@[self.foend_to_fobeg@[e]]) == e
     }
     pub open spec fn same(&self, o: &Self) -> bool { self.f() == o.f() && self.bs() == o.bs() && self.charsz_ == o.charsz_ }
     /// some stored line covers byte `fo`
@@ -337,40 +377,98 @@ impl LineReader {
     /// ASSUMED: the two look-ups return only what find_line stored earlier -- the line around the offset and the offset after it
     #[verifier::external_body]
     pub fn check_store_LRU(&mut self, fileoffset: FileOffset) -> (r: Option<ResultS3LineFind>)
-        ensures final(self).same(old(self)), final(self).lines == old(self).lines, final(self).wf() == old(self).wf(),
+        ensures final(self).same(old(self)), final(self).lines == old(self).lines, final(self).foend_to_fobeg == old(self).foend_to_fobeg, final(self).wf() == old(self).wf(),
             r is Some && r.unwrap() is Found ==> good_line(old(self).f(), old(self).bs(), *r.unwrap()->Found_0.1, fileoffset as int) && r.unwrap()->Found_0.0 as int == l_end(*r.unwrap()->Found_0.1) + 1,
     { unimplemented!() }
+    // assumed: is this the file's last byte
     #[verifier::external_body]
-    pub fn check_store(&mut self, fileoffset: FileOffset) -> (r: Option<ResultS3LineFind>)
-        ensures final(self).same(old(self)), final(self).lines == old(self).lines, final(self).wf() == old(self).wf(),
-            r is Some && r.unwrap() is Found ==> good_line(old(self).f(), old(self).bs(), *r.unwrap()->Found_0.1, fileoffset as int) && r.unwrap()->Found_0.0 as int == l_end(*r.unwrap()->Found_0.1) + 1,
-            // a miss: no stored line covers the offset
-            r is None ==> forall|k: FileOffset| #[trigger] old(self).lines.has(k) ==> !(l_beg(*old(self).lines.at(k)) <= fileoffset as int <= l_end(*old(self).lines.at(k))),
-    { unimplemented!() }
-    /// ASSUMED: the stored line that covers the offset, if any
-    #[verifier::external_body]
-    pub fn get_linep(&self, fileoffset: &FileOffset) -> (r: Option<LineP>)
-        ensures r is Some ==> exists|k: FileOffset| #[trigger] self.lines.has(k) && r.unwrap() == self.lines.at(k) && l_beg(*self.lines.at(k)) <= *fileoffset as int <= l_end(*self.lines.at(k)),
-    { unimplemented!() }
-    /// ASSUMED: insert_line wraps the line in an Arc and records it (the stores are not modelled beyond `lines`)
-    #[verifier::external_body]
-    pub fn insert_line(&mut self, line: Line) -> (r: LineP)
-        ensures *r == line, final(self).same(old(self)),
-    { unimplemented!() }
+    pub fn is_line_last(&self, linep: &LineP) -> bool { unimplemented!() }
+
+//@cut fn path=src/readers/linereader.rs impl=LineReader name=insert_line ret=r
+//@replace "LineP::new(line)" "Arc::new(line)"
+//@replace "self.lines_processed += 1;" "verif_count_inc(&mut self.lines_processed);"
+//@replace "std::cmp::max(self.lines_stored_highest, self.lines.len())" "verif_max_usize(self.lines_stored_highest, self.lines.len())"
+//@spec
+    requires
+        old(self).wf(), stored_ok(old(self).f(), old(self).bs(), line, l_beg(line) as u64),
+        // the function's own debug assertions: neither the first nor the last byte of the line is recorded yet
+        !old(self).lines@.contains_key(l_beg(line) as u64), !old(self).foend_to_fobeg@.contains_key(l_end(line) as u64),
+    ensures
+        *r == line, final(self).same(old(self)),
+        // the store invariant is kept: the new line is recorded under its first byte, its last byte under foend_to_fobeg
+        final(self).wf(), final(self).lines@ == old(self).lines@.insert(l_beg(line) as u64, r),
+//@at_entry
+        proof { broadcast use group_btree_axioms; }
+        let ghost l0 = line;
+//@before_tail
+        proof {
+            let b = l_beg(l0) as u64; let e = l_end(l0) as u64;
+            assert forall|k: FileOffset| #[trigger] self.lines@.contains_key(k) implies stored_ok(self.f(), self.bs(), *self.lines@[k], k)
+                && self.foend_to_fobeg@.contains_key(l_end(*self.lines@[k]) as u64) && self.foend_to_fobeg@[l_end(*self.lines@[k]) as u64] == k by {
+                if k != b { assert(old(self).lines@.contains_key(k)); assert(l_end(*old(self).lines@[k]) as u64 != e); }
+            }
+            assert forall|e2: FileOffset| #[trigger] self.foend_to_fobeg@.contains_key(e2) implies self.lines@.contains_key(self.foend_to_fobeg@[e2])
+                && l_end(*self.lines@[self.foend_to_fobeg@[e2]]) == e2 by {
+                if e2 != e { assert(old(self).foend_to_fobeg@.contains_key(e2)); assert(old(self).foend_to_fobeg@[e2] != b); }
+            }
+        }
+//@mutate ".insert(fo_end, fo_beg);" ".insert(fo_beg, fo_end);"
+//@end
+
+//@cut fn path=src/readers/linereader.rs impl=LineReader name=lines_contains ret=r
+//@replace "self .foend_to_fobeg .range(fileoffset..) .next()" "verif_first_at_or_after(&self.foend_to_fobeg, fileoffset)" ws=1
+//@spec
+    requires self.wf()
+    ensures r == !miss(self.lines@, *fileoffset as int)
+//@at_entry
+        proof { broadcast use group_btree_axioms; }
+//@mutate "if fileoffset < fo_beg {" "if fileoffset <= fo_beg {"
+//@end
+
+//@cut fn path=src/readers/linereader.rs impl=LineReader name=get_linep ret=r
+//@replace "self .foend_to_fobeg .range(fileoffset..) .next()" "verif_first_at_or_after(&self.foend_to_fobeg, fileoffset)" ws=1
+//@spec
+    requires self.wf()
+    ensures
+        // the stored line that covers the offset, if any
+        r is Some ==> exists|k: FileOffset| #[trigger] self.lines@.contains_key(k) && r.unwrap() == self.lines@[k] && l_beg(*self.lines@[k]) <= *fileoffset as int <= l_end(*self.lines@[k]),
+        r is None ==> miss(self.lines@, *fileoffset as int),
+//@at_entry
+        proof { broadcast use group_btree_axioms; }
+//@mutate "if fileoffset < fo_beg {" "if fileoffset > fo_beg {"
+//@mutate "match self.lines.get(fo_beg) {" "match self.lines.get(fileoffset) {"
+//@end
+
+//@cut fn path=src/readers/linereader.rs impl=LineReader name=check_store ret=r
+//@replace "self.find_line_lru_cache_put += 1;" "verif_count_inc(&mut self.find_line_lru_cache_put);" count=*
+//@replace "self.lines_hits += 1;" "verif_count_inc(&mut self.lines_hits);"
+//@replace "self.lines_miss += 1;" "verif_count_inc(&mut self.lines_miss);"
+//@replace "self.lines[&fileoffset].clone()" "verif_map_get_clone(&self.lines, &fileoffset)"
+//@spec
+    requires old(self).wf()
+    ensures final(self).same(old(self)), final(self).lines == old(self).lines, final(self).foend_to_fobeg == old(self).foend_to_fobeg, final(self).wf(),
+        r is Some ==> r.unwrap() is Found,
+        r is Some ==> good_line(old(self).f(), old(self).bs(), *r.unwrap()->Found_0.1, fileoffset as int) && r.unwrap()->Found_0.0 as int == l_end(*r.unwrap()->Found_0.1) + 1,
+        // a miss: no stored line covers the offset
+        r is None ==> miss(old(self).lines@, fileoffset as int),
+//@at_entry
+        proof { broadcast use group_btree_axioms; }
+//@mutate "let fo_next: FileOffset = (*linep).fileoffset_end() + charsz_fo;" "let fo_next: FileOffset = (*linep).fileoffset_end();"
+//@end
 
 //@cut fn path=src/readers/linereader.rs impl=LineReader name=find_line ret=r rlimit=400
 //@replace "pub fn find_line" "#[verifier::exec_allows_no_decreases_clause] pub fn find_line"
 //@replace "self.find_line_lru_cache_put += 1;" "verif_count_inc(&mut self.find_line_lru_cache_put);" count=*
 //@replace "self.lines_hits += 1;" "verif_count_inc(&mut self.lines_hits);"
 //@replace "self.lines_miss += 1;" "verif_count_inc(&mut self.lines_miss);"
-//@replace "self.lines[&fo_nl_a].clone()" "self.lines.get_clone(&fo_nl_a)"
+//@replace "self.lines[&fo_nl_a].clone()" "verif_map_get_clone(&self.lines, &fo_nl_a)"
 //@replace "std::cmp::max(fileoffset, charsz_fo)" "verif_max(fileoffset, charsz_fo)"
 //@replace "const BI_STOP: BlockIndex = 0;" "let BI_STOP: BlockIndex = 0;" count=2
 //@replace "const BI_UNINIT: BlockIndex = usize::MAX;" "let BI_UNINIT: BlockIndex = usize::MAX;"
 //@spec
     requires old(self).wf()
     ensures
-        final(self).same(old(self)),
+        final(self).same(old(self)), final(self).wf(),
         // C12 / C02: whatever the block size, the Line returned is the line of the file around `fileoffset` -- its parts hold the
         // file's own bytes, contiguous from the byte after the previous newline to the next newline (or the end of the file) --
         // and the offset returned with it is the first byte after it
@@ -389,7 +487,7 @@ impl LineReader {
                     bi_middle <= bi_at < bi_stop, !found_nl_b, bi_middle_end == bi_middle, !fo_nl_b_in_middle,
                     no_nl(f, fileoffset as int, mbase + bi_at),
                 invariant
-                    ctx(self, &sp0, f, bs, fsz), charsz_bi == 1,
+                    ctx(self, &sp0, f, bs, fsz), miss(sp0.lines@, fileoffset as int), charsz_bi == 1,
                     bptr_middle@ == fblock(f, bs, bo_middle as int), bi_stop == bptr_middle@.len(), mbase == bo_middle as int * bs, mbase + bi_middle == fileoffset,
                     mbase + bi_stop <= fsz, mbase >= 0,
                     forall|i: int| 0 <= i < bptr_middle@.len() ==> #[trigger] bptr_middle@[i] == f[mbase + i],
@@ -416,7 +514,7 @@ impl LineReader {
                     bof > bo_middle + 1 ==> bi_beg == bi_end && bi_end as int == fblock(f, bs, bof - 1).len() && line.lineparts@.last().blocki_end == bi_end,
                     bof == blockoffset_last + 1 ==> upto(bof as int, bs, fsz) == fsz,
                 invariant
-                    ctx(self, &sp0, f, bs, fsz), sp0.same(old(self)), charsz_bi == 1, charsz_fo == 1, blockoffset_last as int == sp_last(fsz, bs), filesz == fsz, fsz > 0,
+                    ctx(self, &sp0, f, bs, fsz), miss(sp0.lines@, fileoffset as int), sp0.same(old(self)), charsz_bi == 1, charsz_fo == 1, blockoffset_last as int == sp_last(fsz, bs), filesz == fsz, fsz > 0,
                     bo_middle < bof <= blockoffset_last + 1, bo_middle < blockoffset_last, mbase == bo_middle as int * bs, mbase + bi_middle == fileoffset, fileoffset < fsz,
                     (bo_middle as int + 1) * bs == mbase + bs,
                     !fo_nl_b_in_middle, bi_middle_end as int == bs - 1, bi_middle < bs,
@@ -446,7 +544,7 @@ impl LineReader {
                         !found_nl_b, bi_beg < bi_end,
                         no_nl(f, fileoffset as int, bbase + bi_beg),
                     invariant
-                        ctx(self, &sp0, f, bs, fsz), charsz_bi == 1, bptr@ == fblock(f, bs, bof as int), bi_end == bptr@.len(), bbase == bof as int * bs,
+                        ctx(self, &sp0, f, bs, fsz), miss(sp0.lines@, fileoffset as int), charsz_bi == 1, bptr@ == fblock(f, bs, bof as int), bi_end == bptr@.len(), bbase == bof as int * bs,
                         bbase + bi_end <= fsz, bbase >= 0, bi_end <= bs, fileoffset as int <= bbase, !nl_b_eof, !fo_nl_b_in_middle,
                         forall|i: int| 0 <= i < bptr@.len() ==> #[trigger] bptr@[i] == f[bbase + i],
                         (bbase) / bs == bof as int, (bbase) % bs == 0, (bof as int + 1) * bs == bbase + bs,
@@ -507,7 +605,7 @@ impl LineReader {
                 invariant_except_break
                     !found_nl_a, no_nl(f, mbase + bi_at + 1, fileoffset as int),
                 invariant
-                    ctx(self, &sp0, f, bs, fsz), charsz_bi == 1, charsz_fo == 1, BI_STOP == 0,
+                    ctx(self, &sp0, f, bs, fsz), miss(sp0.lines@, fileoffset as int), charsz_bi == 1, charsz_fo == 1, BI_STOP == 0,
                     bptr_middle@ == fblock(f, bs, bo_middle as int), mbase == bo_middle as int * bs, mbase + bi_middle == fileoffset, mbase >= 0,
                     bi_at < bi_middle || found_nl_a, bi_middle < bptr_middle@.len(), mbase + bptr_middle@.len() <= fsz,
                     forall|i: int| 0 <= i < bptr_middle@.len() ==> #[trigger] bptr_middle@[i] == f[mbase + i],
@@ -541,7 +639,7 @@ impl LineReader {
         }
 //@loop 5
                 invariant
-                    ctx(self, &sp0, f, bs, fsz), sp0.same(old(self)), charsz_bi == 1, charsz_fo == 1, blockoffset_last as int == sp_last(fsz, bs), fsz > 0,
+                    ctx(self, &sp0, f, bs, fsz), miss(sp0.lines@, fileoffset as int), sp0.same(old(self)), charsz_bi == 1, charsz_fo == 1, blockoffset_last as int == sp_last(fsz, bs), fsz > 0,
                     parts_true(f, bs, line.lineparts@), s_end(line.lineparts@) == e, fileoffset < fsz, bo_middle <= blockoffset_last,
                     found_nl_a ==> is_startpoint(f, fileoffset as int, s_beg(line.lineparts@)),
                     !found_nl_a ==> s_beg(line.lineparts@) == (bof as int + 1) * bs && line.lineparts@[0].blockoffset as int == bof as int + 1
@@ -562,7 +660,7 @@ impl LineReader {
                     invariant_except_break
                         !found_nl_a, no_nl(f, bbase + bi_at + 1, fileoffset as int), line.lineparts@ == line1,
                     invariant
-                        ctx(self, &sp0, f, bs, fsz), charsz_bi == 1, charsz_fo == 1, BI_STOP == 0, !begof,
+                        ctx(self, &sp0, f, bs, fsz), miss(sp0.lines@, fileoffset as int), charsz_bi == 1, charsz_fo == 1, BI_STOP == 0, !begof,
                         bptr@ == fblock(f, bs, bof as int), blen as int == bs, bi_start as int == bs - 1, bi_at <= bi_start || found_nl_a, bbase == bof as int * bs, bbase >= 0,
                         bbase + bs <= fsz, (bof as int + 1) * bs == bbase + bs, fileoffset as int >= bbase + bs,
                         forall|i: int| 0 <= i < bptr@.len() ==> #[trigger] bptr@[i] == f[bbase + i],
@@ -584,12 +682,24 @@ impl LineReader {
 //@before "let fo_end: FileOffset = line.fileoffset_end();"
         proof {
             assert(found_nl_a);
-            assert(good_line(f, bs, line, fileoffset as int));
+            assert(is_endpoint(f, fileoffset as int, e));
+            assert(parts_true(f, bs, line.lineparts@) && s_end(line.lineparts@) == e);
+            assert(is_startpoint(f, fileoffset as int, s_beg(line.lineparts@)));
+            lemma_good(f, bs, line, fileoffset as int, e);
         }
 //@mutate "bi_middle_end = bi_at;" "bi_middle_end = bi_middle;"
 //@mutate "fo_nl_a1 = fo_nl_a + charsz_fo;" "fo_nl_a1 = fo_nl_a;"
 //@mutate "bi_middle_end = bi_stop - charsz_bi;" "bi_middle_end = bi_stop;"
 //@mutate "bi_at -= charsz_bi;" "bi_at -= charsz_bi; if bi_at > 0 { bi_at -= 1; }"
+//@before "let linep: LineP = self.insert_line(line);" *
+            proof {
+                broadcast use group_btree_axioms;
+                assert(good_line(f, bs, line, fileoffset as int));
+                let b = l_beg(line); let e_ = l_end(line);
+                // a stored line sharing the first or the last byte of this one would be this line and cover the offset: check_store missed
+                if self.lines@.contains_key(b as u64) { let o = *self.lines@[b as u64]; lemma_same_line(f, b, e_, l_beg(o), l_end(o), b); }
+                if self.foend_to_fobeg@.contains_key(e_ as u64) { let k = self.foend_to_fobeg@[e_ as u64]; let o = *self.lines@[k]; lemma_same_line(f, b, e_, l_beg(o), l_end(o), e_); }
+            }
 //@end
 }
 /// stand-in (R9) for `counter += 1` on a u64 statistics counter: assumed not to overflow
@@ -599,7 +709,7 @@ pub fn verif_max(a: FileOffset, b: FileOffset) -> (r: FileOffset) ensures r == (
 
 /// vacuity guard: the assumptions about the reader (its store invariant, the file) are satisfiable -- this must NOT verify
 pub proof fn lnr__canary(r: LineReader, k: FileOffset)
-    requires r.wf(), r.lines.has(k), r.f().len() == 100, r.bs() == 16
+    requires r.wf(), r.lines@.contains_key(k), r.f().len() == 100, r.bs() == 16
     ensures false
 {}
 
